@@ -447,6 +447,22 @@ def make_runs(tier, seed):
 
 def run(tier, seed, verdict):
     runs = make_runs(tier, seed)
+    level, cov, assumptions = _run_a(tier, seed, verdict, runs)
+    # Binding B: executions recorded from the library, over a larger universe, judged by TLC (NixMetaTrace.tla)
+    from . import tracemeta
+    quick = tier != "thorough"
+    info = tracemeta.run_binding_b(seed, 120 if quick else 1500, 30 if quick else 40, verdict)
+    cov["recorded_traces_validated_by_tlc"] = info
+    cov["traces_validated_against_impl"] += info["traces"] if info["accepted"] else 0
+    cov["states"] += info["tlc_states"]
+    cov["rule"] += "; Binding B: a seeded random driver over 6 names / lists up to 4 per call / 30-40 calls per session (faults " \
+                   "with probability 1/4) records call, outcome class and the complete projected state (value tokens by " \
+                   "inverse concretisation) after every call; NixMetaTrace.tla has to explain every line with the action " \
+                   "the call maps to; a deliberately corrupted copy of the log must be rejected at the corrupted line"
+    return level, cov, assumptions
+
+
+def _run_a(tier, seed, verdict, runs):
     return runner.assemble(
         "C10", verdict, runs, owns=lambda f: owner_of(f) == "C10",
         rule="every history of create (values / DataType / dictionary assignment) / assign / extend / clear / delete / "
@@ -459,7 +475,8 @@ def run(tier, seed, verdict):
         assumptions=["text values are never passed as NumPy arrays (their dtype is not the stored vlen type - left open)",
                      "len(section) is the number of properties (as built)",
                      "a refused call that changes the state is reported by C12, not here"],
-        tlc_props=["TypeOK", "Homogeneous", "DictConsistent", "RefusedUnchanged", "DtypeFixed", "ExtendIsConcat", "WriteFrame"],
+        tlc_props=["TypeOK", "Homogeneous", "DictConsistent", "RefusedUnchanged", "DtypeFixed", "ExtendIsConcat", "WriteFrame",
+                   "TraceAccepted (NixMetaTrace: every recorded line explained)"],
         need=("CreateProp:ok", "Assign:ok", "Extend:ok", "Clear:ok", "DeleteProp:ok", "CreateTyped:ok",
               "Assign:refused:TypeError", "Extend:refused:TypeError", "CreateProp:refused:TypeError", "SetAttr:ok",
               "SetOdml:ok", "SetOdml:refused:TypeError", "CreateSub:ok"))
